@@ -205,6 +205,42 @@ theorem referenced_unchanged (env : RegexEnv) (ops : List Op) (op : Op) :
   exact ⟨fun k n h => step_sets_lookup env hi op k n h, fun n h h' => step_stmts_lookup env hi op n h h',
     fun n h => step_pols_lookup env hi op n h⟩
 
+/-! ## 5b. The holders outside `PolicyTable`: published copies and per-peer export overrides -/
+
+/-- For EVERY sequence of daemon calls (set / statement calls on `global.ptable`, the `Global`
+    wrappers for policies and assignments, per-peer assignments, add / delete peer,
+    SetPolicyAssignment, SetPolicies) from any initial peer list: the table's references are closed,
+    the copies published in `TableManager` ARE the table's two assignments, and every peer
+    override's policies are the table's current objects. -/
+theorem holders_ref_closed (env : RegexEnv) (peers : List Addr) (ops : List DOp) :
+    DInv true (drunState env (DState.init peers) ops) :=
+  DInv.run env ops (DInv.init true peers) (Or.inl rfl)
+
+/-- The daemon-level reference checker accepts every run of the daemon-level model: after every
+    call every holder evaluates every probe as the reference chain over what ITS names currently
+    resolve to, nothing a holder or a table object still references has changed, and a call leaves
+    every holder it is not addressed to — assignment and results — exactly as it was. -/
+theorem eval_eq_reference_daemon (env : RegexEnv) (c : DCase) (h : ∀ op ∈ c.ops, op.noAsRegex = true) :
+    DSpec.dcheck env c (drun env c) = .ok :=
+  dcheck_run_ok env c h
+
+/-- a call that is not addressed to a holder leaves that holder's assignment alone -/
+theorem holder_untouched (env : RegexEnv) (peers : List Addr) (ops : List DOp) (op : DOp) :
+    let s := drunState env (DState.init peers) ops
+    (∀ d, DSpec.targetsPub d op = false → (s.step env op).1.pub d = s.pub d) ∧
+    (∀ a, DSpec.targetsPeer a op = false → alLookup a (s.step env op).1.peers = alLookup a s.peers) := by
+  intro s
+  have hd : DInv true s := holders_ref_closed env peers ops
+  exact ⟨fun d h => dstep_pub env hd op d h, fun a h => dstep_peer env s op a h⟩
+
+/-- a policy any holder uses is what it was after any call except a full reload -/
+theorem holder_policy_unchanged (env : RegexEnv) (peers : List Addr) (ops : List DOp) (op : DOp)
+    (h : DSpec.isReload op = false) (m : String) :
+    let s := drunState env (DState.init peers) ops
+    (polUsed s.t m ∨ peerUsed s m) → alLookup m (s.step env op).1.t.pols = alLookup m s.t.pols := by
+  intro s hu
+  exact dstep_pols_lookup env (holders_ref_closed env peers ops) op h m hu
+
 /-! ## 6. Non-vacuity and the full-strength statement -/
 
 def envAll : RegexEnv := { valid := fun _ => true, «matches» := fun _ _ => true, extStr := fun _ => none }
@@ -236,6 +272,32 @@ example : Spec.pathOk probe1.attrs = true := by decide +kernel
 example : (run envAll sample).map (fun s => match s with | .step r _ _ e => (r, e.map (·.map (fun p => match p with | .r d _ _ => some d | _ => none))) | _ => (.ok, none))
     = [(.ok, none), (.ok, none), (.ok, none), (.ok, none), (.ok, none), (.ok, some [some .reject]),
        (.inUse, some [some .reject]), (.inUse, some [some .reject]), (.inUse, some [some .reject])] := by decide +kernel
+
+/-- a daemon-level case: a peer override keeps a policy alive that no global assignment uses;
+    deleting it, appending to it, deleting its statement are refused; SetPolicyAssignment naming
+    the peer replaces only that peer's override; SetPolicies reloads every holder -/
+def dsample : DCase :=
+  { probes := [probe1], peers := [⟨false, 3221225985⟩, ⟨false, 3221225986⟩],
+    ops := [.tbl (.setAdd .prefix "ps1" [.pfx ⟨⟨false, 167772160⟩, 8, 8, 32⟩]),
+            .tbl (.stmtAdd "s1" [.set .prefix "ps1" .any] (some .reject) {}),
+            .tbl (.stmtAdd "s2" [] (some .accept) { localPref := some 200 }),
+            .polAdd "p1" ["s1"], .polAdd "p2" ["s2"],
+            .asgAdd .global .exp .accept ["p1"],
+            .asgAdd (.peer ⟨false, 3221225985⟩) .exp .reject ["p2"],
+            .polDel "p2" false true [], .polAdd "p2" ["s1"], .tbl (.stmtDel "s2" true [] none {}),
+            .asgSet (.peer ⟨false, 3221225986⟩) .exp .accept ["p1"],
+            .setPolicies [.stmtAdd "s1" [] (some .accept) {}, .polAdd "p1" ["s1"], .asgAdd .imp "global" .accept ["p1"]]] }
+
+example : (∀ op ∈ dsample.ops, op.noAsRegex = true) := by decide +kernel
+example : (drun envAll dsample).map (fun s => match s with
+      | .step r _ hi he hp => (r, hi.map (·.1.name), he.map (·.1.pols), hp.map (fun p => p.2.map (·.1.pols))))
+    = [(.ok, none, none, [none, none]), (.ok, none, none, [none, none]), (.ok, none, none, [none, none]),
+       (.ok, none, none, [none, none]), (.ok, none, none, [none, none]),
+       (.ok, none, some ["p1"], [none, none]), (.ok, none, some ["p1"], [some ["p2"], none]),
+       (.inUse, none, some ["p1"], [some ["p2"], none]), (.inUse, none, some ["p1"], [some ["p2"], none]),
+       (.inUse, none, some ["p1"], [some ["p2"], none]),
+       (.ok, none, some ["p1"], [some ["p2"], some ["p1"]]),
+       (.ok, some "global", none, [none, none])] := by decide +kernel
 
 /-- the full-strength statement: no restriction on AS-path patterns -/
 def C14_full : Prop := ∀ (env : RegexEnv) (c : Case), (∀ op ∈ c.ops, op.noWellKnown = true) → Spec.check env c (run env c) = .ok
@@ -271,4 +333,8 @@ end Rbgp.Policy.Props
 #print axioms Rbgp.Policy.Props.crud_ref_closed
 #print axioms Rbgp.Policy.Props.in_use_not_deleted
 #print axioms Rbgp.Policy.Props.referenced_unchanged
+#print axioms Rbgp.Policy.Props.holders_ref_closed
+#print axioms Rbgp.Policy.Props.eval_eq_reference_daemon
+#print axioms Rbgp.Policy.Props.holder_untouched
+#print axioms Rbgp.Policy.Props.holder_policy_unchanged
 #print axioms Rbgp.Policy.Props.C14_full_refuted
